@@ -552,7 +552,15 @@ func runCheck(cfg *runConfig) int {
 	out := generate(p, cs, cfg.prop, cfg.only)
 	tGen := time.Since(t0).Seconds() - tLoad
 	results := solveAll(out.obls, cfg)
-	return report(cfg, cs, out, results, tLoad, tGen, time.Since(t0).Seconds())
+	rc := report(cfg, cs, out, results, tLoad, tGen, time.Since(t0).Seconds())
+	if cfg.only == "" {
+		if hs := loadBounded(cfg.prop); len(hs) > 0 {
+			if brc := runBoundedMode(cfg, hs, true); brc != 0 {
+				rc = brc
+			}
+		}
+	}
+	return rc
 }
 
 // ---------------------------------------------------------------------------
